@@ -10,6 +10,17 @@ pub fn fingerprint_of<T: Hash>(value: &T) -> u64 {
     crate::fingerprint(value).get()
 }
 
+/// `Path::from_fingerprints` (crate-private: it is what `discoveries()` and the Explorer use to rebuild a
+/// path from the fingerprints the checkers keep). `None` for a fingerprint 0, which no state has.
+pub fn path_from_fingerprints<M>(model: &M, fingerprints: &[u64]) -> Option<crate::Path<M::State, M::Action>>
+where
+    M: crate::Model,
+    M::State: Hash,
+{
+    let fps: Option<std::collections::VecDeque<crate::Fingerprint>> = fingerprints.iter().map(|f| crate::Fingerprint::new(*f)).collect();
+    Some(crate::Path::from_fingerprints(model, fps?))
+}
+
 static BLOCK_LIMIT: AtomicUsize = AtomicUsize::new(0);
 
 /// Overrides how many states a worker evaluates before it looks at the job market again (a
